@@ -294,14 +294,36 @@ func c03Probe(c *fw.Case, rd sstables.SSTableReaderI, kvs []kv, model map[string
 		c.Obs("evaluations_probing_through_reused_key_buffers", 1)
 	}
 	bufA, bufB := make([]byte, 0, 64), make([]byte, 0, 64)
+	for i := 0; i < 64; i++ {
+		bufA[:64][i], bufB[:64][i] = 0xEE, 0xEE
+	}
 	arg := func(buf *[]byte, p []byte) []byte {
 		if !reuse || len(p) == 0 {
 			return p
 		}
 		*buf = append((*buf)[:0], p...)
+		// what lies behind the argument in the caller's buffer is the caller's: it is marked, and looked at after the call
+		for i, sp := 0, (*buf)[len(*buf):cap(*buf)]; i < len(sp); i++ {
+			sp[i] = 0xA5
+		}
 		return *buf
 	}
+	spareTouched := func() string {
+		for _, b := range [][]byte{bufA, bufB} {
+			for i, x := range b[len(b):cap(b)] {
+				if x != 0xA5 && x != 0xEE {
+					return fmt.Sprintf("byte %d behind a %d byte argument now reads %02x", i, len(b), x)
+				}
+			}
+		}
+		return ""
+	}
 	scribble := func() {
+		if reuse && !c.Violated() {
+			if why := spareTouched(); why != "" {
+				c.Violate("sstable/caller-buffer-written-behind-the-argument"+feat, "%s: a call wrote into its caller's buffer beyond the key or bound it was given: %s", cfg, why)
+			}
+		}
 		for i := range bufA[:cap(bufA)] {
 			bufA[:cap(bufA)][i] = 0xEE
 		}
